@@ -184,8 +184,18 @@ def _run_impl(case: dict) -> list:
                         conns.append(c)
                 objs[:] = [cur]
                 obs.append('ok')
-            elif op[0] == 'set':
-                (net.set_download_speed_limit if down else net.set_upload_speed_limit)(op[1])
+            elif op[0] in ('set', 'load'):
+                if op[0] == 'load':
+                    # the limit comes from the settings and is (re)applied with load_speed_limits(), as the client does on a
+                    # settings change — also when the settings still hold the value they had at the last load
+                    lim = net._settings.network.limits
+                    if down:
+                        lim.download_speed_kbps = op[1]
+                    else:
+                        lim.upload_speed_kbps = op[1]
+                    net.load_speed_limits()
+                else:
+                    (net.set_download_speed_limit if down else net.set_upload_speed_limit)(op[1])
                 o = net._download_rate_limiter if down else net._upload_rate_limiter
                 idx(o)
                 obs.append(f'ok {o.bucket} {_ticks(o.last_refill)}')
@@ -512,7 +522,7 @@ def _ticks(t: float):
 def _model_lines(case: dict) -> list[str]:
     out = []
     for op in case['ops']:
-        out.append(' '.join(str(x) for x in op))
+        out.append(' '.join(str(x) for x in (['set'] + list(op[1:]) if op[0] == 'load' else op)))
     return out
 
 
@@ -563,7 +573,7 @@ def _monitor(case: dict, obs: list) -> list[Violation]:
         if op[0] == 'new':
             now, L = op[2], op[1] * 1024
             events, sets, pending, waiting, cur_bucket = [], [], set(), {}, 0
-        elif op[0] == 'set':
+        elif op[0] in ('set', 'load'):
             L = op[1] * 1024
             sets.append((now, L, k))
             cur_bucket = int(o.split()[1])
@@ -740,6 +750,22 @@ def _gen_case(rng: random.Random, size: int) -> dict:
                 ops.append(['set', rng.choice(limits + [0, 0])])
             else:
                 ops.append(['poll', rng.randint(0, 3), rng.choice(GAPS)])
+    if any(o[0] == 'set' for o in ops):
+        # the limit also changes through the settings + load_speed_limits(); the settings value is tracked so that loads of
+        # the value they ALREADY hold (after direct setter calls changed the limit in force) occur often
+        held = ops[0][1]
+        out = []
+        for o in ops:
+            if o[0] == 'set':
+                r = rng.random()
+                if r < 0.25:
+                    o = ['load', o[1]]
+                    held = o[1]
+                elif r < 0.45:
+                    out.append(o)
+                    o = ['load', held]              # re-apply what the settings say (unchanged since the last load)
+            out.append(o)
+        ops = out
     return {'ops': ops, 'lone': kind == 'lone', 'disciplined': kind in ('lone', 'fair', 'sniper'), 'kind': kind}
 
 
